@@ -117,6 +117,16 @@ def oracle(c, out):
         bad = _components_remember(c)
         if bad:
             fails.append((site + ":component-does-not-remember-update", bad))
+    # ---- composites: after every successful call every component forecaster, at any depth, stands at the composite's cutoff
+    if opq and fitted:
+        bad = _components_cutoff(c)
+        if bad:
+            fails.append((site + ":component-cutoff-differs", bad))
+    # ---- pipelines: what the final forecaster remembers of the last batch is that batch as its (fitted) transformers map it
+    if opq and fitted:
+        bad = _pipeline_memory(c)
+        if bad:
+            fails.append((site + ":pipeline-final-forecaster-remembers-untransformed-data", bad))
     # ---- per-op clauses on twins
     prev = (False, None, 0, "none")
     for i, (op, (r, st)) in enumerate(zip(c["ops"], res)):
@@ -134,7 +144,7 @@ def oracle(c, out):
                 if bad:
                     fails.append((site + ":update-predict-differs-from-single-steps", bad))
         # (b) refit-on-update == fresh fit on the union, (c) no-refit update keeps parameters
-        if k == "upd" and r[0] == "ok" and op[1] and in_order and not opq and prev[0] and c["mode"] == "o":
+        if k == "upd" and r[0] == "ok" and op[1] and in_order and prev[0] and (c["mode"] == "o" or opq) and (not opq or (op[2] and _refit_comparable(c, i))):
             bad = _check_update_equiv(c, i, op[2])
             if bad:
                 fails.append((site + (":refit-update-differs-from-fresh-fit" if op[2] else ":no-refit-update-changed-forecast"), bad))
@@ -316,6 +326,86 @@ def _components_remember(c):
     return None
 
 
+def _pipelines_in(f):
+    from sktime.forecasting.compose import TransformedTargetForecaster
+    out = [f] if isinstance(f, TransformedTargetForecaster) else []
+    for g in _component_forecasters(f):
+        if isinstance(g, TransformedTargetForecaster):
+            out.append(g)
+    return out
+
+
+def _pipeline_memory(c):
+    import warnings
+    warnings.filterwarnings("ignore")
+    f = M.make_forecaster(c)
+    for i, op in enumerate(c["ops"]):
+        k = op[0]
+        try:
+            if k == "fit":
+                f.fit(M.mk_series(op[1], 0, False), fh=M.mk_fh(op[2], 0))
+            elif k == "pred":
+                f.predict(M.mk_fh(op[1], 0))
+            elif k == "upd":
+                f.update(M.mk_series(op[1], 0, False), update_params=op[2])
+            elif k == "up":
+                f.update_predict(M.mk_series(op[1], 0, False), cv=M.mk_cv(op[2]), update_params=op[3])
+            elif k == "ups":
+                f.update_predict_single(M.mk_series(op[1], 0, False), fh=M.mk_fh(op[2], 0), update_params=op[3])
+        except Exception:
+            return None
+        if k not in ("fit", "upd", "ups") or not op[1]:
+            continue
+        batch = M.mk_series(op[1], 0, False).astype(float)
+        for p in _pipelines_in(f):
+            steps = getattr(p, "steps_", None)
+            if not steps:
+                continue
+            try:
+                z = batch
+                for _, t in steps[:-1]:
+                    z = t.transform(z)
+                mem = steps[-1][1]._y
+                got = mem.loc[batch.index].to_numpy(dtype=float)
+                want = np.asarray(z, dtype=float).ravel()
+            except Exception:
+                continue
+            if len(got) != len(want) or not np.allclose(got, want, rtol=1e-9, atol=1e-9, equal_nan=True):
+                return "after op %d (%s) the final forecaster of the pipeline remembers %r at labels %r, the transformers map the batch to %r" % (
+                    i, k, [round(float(v), 6) for v in got], [int(l) for l in batch.index], [round(float(v), 6) for v in want])
+    return None
+
+
+def _components_cutoff(c):
+    import warnings
+    warnings.filterwarnings("ignore")
+    f = M.make_forecaster(c)
+    for i, op in enumerate(c["ops"]):
+        try:
+            k = op[0]
+            if k == "fit":
+                f.fit(M.mk_series(op[1], 0, False), fh=M.mk_fh(op[2], 0))
+            elif k == "pred":
+                f.predict(M.mk_fh(op[1], 0))
+            elif k == "upd":
+                f.update(M.mk_series(op[1], 0, False), update_params=op[2])
+            elif k == "up":
+                f.update_predict(M.mk_series(op[1], 0, False), cv=M.mk_cv(op[2]), update_params=op[3])
+            elif k == "ups":
+                f.update_predict_single(M.mk_series(op[1], 0, False), fh=M.mk_fh(op[2], 0), update_params=op[3])
+        except Exception:
+            return None          # after a failed call the state is not specified here
+        try:
+            own = f.cutoff
+        except Exception:
+            continue
+        for g in _component_forecasters(f):
+            gc = getattr(g, "_cutoff", None)
+            if gc is not None and own is not None and int(gc) != int(own):
+                return "after op %d (%s): %s stands at cutoff %d, the composite at %d" % (i, op[0], type(g).__name__, int(gc), int(own))
+    return None
+
+
 def _real_values(c):
     """list of per-op real results (Series/DataFrame values as nested lists, or error token)"""
     import warnings, pandas as pd
@@ -352,13 +442,43 @@ def _same(a, b):
 PROBE_FH = ["r", [1, 2, 4]]
 
 
+# "a forecaster that refits on update": update(update_params=True) of these does NOT refit the whole forecaster, by
+# their own code -- the stacker leaves its meta-regressor as fitted (it warns that updating it is not implemented), and a
+# pipeline whose transformers keep fitted state or per-call statistics (Detrender, Imputer) transforms only the new batch
+# with the updated transformer, it does not re-transform what the final forecaster already remembers.  For them the
+# statement's refit clause has no subject; their update is checked by the component clauses (memory, cutoff, pipeline
+# memory) here and by C09's composition clauses.
+# Likewise a tuner's update updates the forecaster it selected and does not search again (C08 states what it must equal),
+# and ThetaForecaster has "a custom update_params routine": it keeps the smoothing model of the last fit and only
+# recomputes its trend (from the new batch alone when deseasonalize=False -- see DESIGN 11.4, observations).
+NOT_A_REFIT = {"stack", "pipeline_detrend", "pipeline_impute", "tuned", "theta"}
+
+
+def _refit_comparable(c, i):
+    """opaque forecasters: update(update_params=True) is compared with a fresh fit on the union when the history so far
+    is fit + plain updates (update_predict feeds only part of its data), no horizon is absolute and the labels handed
+    over form a gap-free range (the shrinker must not wander off the domain)"""
+    ops = c["ops"][:i + 1]
+    if c["core"].split(":")[-1] in NOT_A_REFIT:
+        return False
+    labels = [l for o in ops if o[0] in ("fit", "upd") for l, _ in o[1]]
+    if not labels or len(set(labels)) != max(labels) - min(labels) + 1:
+        return False
+    if any(o[0] in ("up", "ups") for o in ops):
+        return False
+    if any(o[0] == "fit" and o[2] is not None and o[2][0] != "r" for o in ops):
+        return False
+    return True
+
+
 def _check_update_equiv(c, i, refit):
     """after ops[:i+1] (ending in update), forecasts must equal those of the reference history"""
     ops = c["ops"][:i + 1]
     fit_idx = max(j for j, o in enumerate(ops) if o[0] == "fit")
     fit_op = ops[fit_idx]
     fh_for_fit = fit_op[2]
-    a_outs, fa = _real_values(_twin(c, ops + [["pred", PROBE_FH]]))
+    probe = PROBE_FH if c["mode"] == "o" else None          # a horizon-dependent forecaster answers with its own horizon
+    a_outs, fa = _real_values(_twin(c, ops + [["pred", probe]]))
     if refit:
         # reference: a fresh forecaster fitted on everything remembered so far (y1 followed by y2)
         merged = {}
@@ -370,7 +490,7 @@ def _check_update_equiv(c, i, refit):
             elif o[0] == "up":
                 return None
         series = [[l, merged[l]] for l in sorted(merged)]
-        b_outs, fb = _real_values(_twin(c, [["fit", series, fh_for_fit], ["pred", PROBE_FH]]))
+        b_outs, fb = _real_values(_twin(c, [["fit", series, fh_for_fit], ["pred", probe]]))
         if not _same(a_outs[-1], b_outs[-1]):
             return "fit;...;update(refit) forecasts %s, fresh fit on the union forecasts %s" % (_fmt(a_outs[-1]), _fmt(b_outs[-1]))
         return None
@@ -477,6 +597,8 @@ def _cut_batches(rng, series, overlap_p=0.3):
 def _history(rng, core, mode, long=False):
     opq = core.startswith("opaque")
     nan_p = 0.0 if opq else rng.choice([0, 0, 0, 0.12])
+    if core == "opaque:pipeline_impute":
+        nan_p = 0.15          # its cleaning step is there for missing values, in the training series and in later batches
     total = rng.randrange(14, 26) if opq else rng.randrange(4, 22)
     start = rng.choice([0, 0, 5, -3])
     series = M.stretch(rng, start, total, nan_p, opq, 0.0)
@@ -488,6 +610,9 @@ def _history(rng, core, mode, long=False):
         for o in b:
             if rng.random() < 0.15:
                 o[1] = None if (not opq and rng.random() < 0.3) else rng.randrange(1, 80) / 2
+    if core == "opaque:pipeline_impute" and batches and not any(o[1] is None for b in batches for o in b):
+        b = rng.choice(batches)
+        b[rng.randrange(len(b))][1] = None            # at least one missing value arrives in a later batch
     fit_fh = M.rand_fh(rng, "oos", None, 3) if (mode == "r" or opq or rng.random() < 0.7) else None
     ops = [["fit", y0, fit_fh]]
     stored = fit_fh is not None
